@@ -117,6 +117,94 @@ theorem cnt_knots_bezier (k : KV) (g : GoodKV k) (hwf : WF k.v k.deg) (hb : k.de
       · exact h1 h
       · exact h2 h
 
+/-- what an accepted `degree_increase(times)` of a polynomial Bézier curve produces -/
+theorem bezier_degreeIncrease_unpack (c c' : Curve) (times : Nat) (pts : List Vec)
+    (hP : c.P = some pts) (hW : c.W = none)
+    (hwf : WF c.kv.v c.kv.deg) (hsep : Separated c.kv.v) (hbez : c.kv.deg + 1 = c.kv.npts)
+    (h : c.degreeIncrease times = .ok c') :
+    ∃ newk : KV, c' = ⟨newk, some (matPts (elevBezier c.kv.deg times) pts), none⟩
+      ∧ newk.v = bezList (c.kv.deg + times) c.kv.umin c.kv.umax ∧ newk.deg = c.kv.deg + times
+      ∧ newk.npts = c.kv.deg + times + 1 ∧ newk.umin = c.kv.umin ∧ newk.umax = c.kv.umax
+      ∧ WF newk.v newk.deg ∧ Separated newk.v ∧ c.kv.umin < c.kv.umax ∧ times ≠ 0 := by
+  have g : GoodKV c.kv := by
+    have := goodKV_of_WF c.kv.v c.kv.deg hwf hsep
+    cases hk : c.kv; rw [hk] at this; exact this
+  have hlt : c.kv.umin < c.kv.umax := by
+    have h1 := g.ord.mono c.kv.deg (c.kv.npts - 1) (by omega) (by have := g.ord.len; omega)
+    have h2 := g.last
+    unfold KV.umin KV.umax
+    exact lt_of_le_of_lt h1 h2
+  have hne : c.kv.umin ≠ c.kv.umax := ne_of_lt hlt
+  have hv := bezier_kv_list c.kv hwf hbez
+  unfold Curve.degreeIncrease at h
+  simp only [bind, Except.bind] at h
+  split at h
+  · cases h
+  · rename_i ht
+    split at h
+    · cases h
+    · rename_i newk hins
+      split at h
+      · cases h
+      · rename_i m hm
+        -- the matrix
+        have hmat : m = elevBezier c.kv.deg times := by
+          unfold degreeIncreaseMat at hm
+          simp only [ht, if_false, hbez, if_true, pure, Except.pure, Except.ok.injEq] at hm
+          exact hm.symm
+        subst hmat
+        -- the new vector
+        have hnv : isValid newk.v none = true ∧ newk.v = isort (c.kv.v ++ KV.repeatList times c.kv.knots)
+            ∧ newk.deg = cnt newk.v (newk.v.headD 0) - 1 := by
+          unfold KV.insert at hins
+          split at hins
+          · cases hins
+          · obtain ⟨h1, h2, h3⟩ := mk?_ok _ _ hins
+            rw [← h2] at h1 h3
+            exact ⟨h1, h2, h3⟩
+        obtain ⟨hval, hnewv, hnd⟩ := hnv
+        have hlist : newk.v = bezList (c.kv.deg + times) c.kv.umin c.kv.umax := by
+          rw [hnewv]
+          apply sorted_eq_of_cnt _ _ (sortedLE_isort _) (sortedLE_bezList _ _ _ hlt)
+          intro x
+          rw [cnt_isort, cnt_append, cnt_repeatList, cnt_knots_bezier c.kv g hwf hbez x, hv,
+            cnt_bezList _ _ _ x hne, cnt_bezList _ _ _ x hne]
+          by_cases h1 : x = c.kv.umin
+          · simp only [h1, if_true]; ring
+          · by_cases h2 : x = c.kv.umax
+            · rw [if_neg h1, if_pos h2, if_neg h1, if_pos h2, if_neg h1, if_pos h2]; ring
+            · simp [h1, h2]
+        have hdeg : newk.deg = c.kv.deg + times := by
+          rw [hnd, hlist]
+          have : (bezList (c.kv.deg + times) c.kv.umin c.kv.umax).headD 0 = c.kv.umin := by
+            rw [headD_eq_nth, nth_bezList _ _ _ 0 (by omega)]; simp [bezKnots]
+          rw [this, cnt_bezList _ _ _ _ hne]
+          simp
+        have hnpts : newk.npts = c.kv.deg + times + 1 := by
+          unfold KV.npts; rw [hlist, bezList_length, hdeg]; omega
+        have humin : newk.umin = c.kv.umin := by
+          show nth newk.v newk.deg = c.kv.umin
+          rw [hlist, hdeg, nth_bezList _ _ _ _ (by omega)]; simp [bezKnots]
+        have humax : newk.umax = c.kv.umax := by
+          show nth newk.v newk.npts = c.kv.umax
+          rw [hnpts, hlist, nth_bezList _ _ _ _ (by omega)]; simp [bezKnots]
+        have hsepN : Separated newk.v := by
+          apply separated_of_subset _ _ hsep
+          intro y hy
+          rw [hlist] at hy
+          unfold bezList at hy
+          rcases List.mem_append.mp hy with h1 | h1
+          · rw [List.eq_of_mem_replicate h1]; unfold KV.umin; exact nth_mem _ _ (by have := g.ord.len; omega)
+          · rw [List.eq_of_mem_replicate h1]; unfold KV.umax; exact nth_mem _ _ (by have := g.ord.len; omega)
+        have hwfN : WF newk.v newk.deg := by rw [hnd]; exact isValid_WF newk.v hsepN hval
+        -- the new curve
+        have hc' : c' = ⟨newk, some (matPts (elevBezier c.kv.deg times) pts), none⟩ := by
+          unfold Curve.apply at h
+          rw [hP, hW] at h
+          simp only [Option.map_some] at h
+          exact (mk?_spec _ _ _ _ h).1
+        exact ⟨newk, hc', hlist, hdeg, hnpts, humin, humax, hwfN, hsepN, hlt, ht⟩
+
 /-- **C06 (degree elevation of a Bézier curve).**  For every polynomial Bézier model curve (any degree), every
 `times`: an accepted `degree_increase(times)` gives a curve on the Bézier vector of degree `p + times` that takes the
 same value at every parameter of the interval. -/
